@@ -163,7 +163,13 @@ def check_case(case, ctx):
     expected = ref.dataset_multiset(libx.normalise_raw(A)) == ref.dataset_multiset(libx.normalise_raw(B))
     sub = {"A": A, "B": B, "kind": case["kind"]}
     st, da = call(libx.mk_dataset, A, name_a)
-    st2, db = call(libx.mk_dataset, B, name_b)
+    if gen.digest([A, B])[0] in "01":
+        # one operand is an instance of a user-defined sub-class of Dataset (built by the inherited class method)
+        ctx.count("pairs_with_a_subclass_instance")
+        sub_cls = libx.dataset_subclass()
+        st2, db = call(lambda: sub_cls.from_raw_list([[set(b) for b in r] for r in B], name_b))
+    else:
+        st2, db = call(libx.mk_dataset, B, name_b)
     if st == "exc" or st2 == "exc":
         ctx.count("not_constructible")
         return
@@ -352,6 +358,7 @@ def reach(counters, tier, info):
                             ("near misses: names with a comma", "near_miss:comma", 100 * k),
                             ("near misses: names with a space", "near_miss:space", 100 * k),
                             ("near misses: places recombined across two rankings", "near_miss:recombine", 150 * k),
+                            ("pairs one operand of which is an instance of a sub-class of Dataset", "pairs_with_a_subclass_instance", 300 * k),
                             ("near misses: an empty bucket more / fewer / elsewhere", "near_miss:empty-bucket", 100 * k),
                             ("single-ranking pairs (agreement with Ranking equality)", "single_ranking_pairs", 300 * k),
                             ("datasets compared again after an in-place mutation", "compared_again_after_in_place_mutation", 400 * k),
